@@ -37,7 +37,7 @@ def rots_for(kind, rnd, rich):
     return ()
 
 
-def gen_graph(rnd, kind, n_poses, n_lm, n_extra, custom=False, fixed_mode='first', fix_first=True, noise=True, big=False):
+def gen_graph(rnd, kind, n_poses, n_lm, n_extra, custom=False, fixed_mode='first', fix_first=True, noise=True, big=False, parallel_p=0.7):
     """One lattice graph case (dict for MC_Assembly).  kind in R2,R3,SE2,SE3."""
     pk = point_kind(kind)
     TT = EC.T2 if B.DIM[kind] == 2 else EC.T3
@@ -73,7 +73,7 @@ def gen_graph(rnd, kind, n_poses, n_lm, n_extra, custom=False, fixed_mode='first
         if n_poses >= 2:
             a, b = rnd.sample(range(n_poses), 2)
             add_odo(a, b)
-    if n_poses >= 2 and rnd.random() < 0.7:       # parallel edges, both orders
+    if n_poses >= 2 and rnd.random() < parallel_p:       # parallel edges, both orders
         a, b = rnd.sample(range(n_poses), 2)
         add_odo(a, b)
         add_odo(b, a)
